@@ -24,13 +24,17 @@ func checkC10(c *Ctx) {
 		"ExpiredAt() of the expiry error and ExpireAt() of walked entries are tsTime(entry.E) of the same entry, tsTime inverts ts, and the " +
 		"legacy walker copies E unchanged. Not decided: float rounding and Duration(float64) truncation (sub-nanosecond), the real clock, " +
 		"math/rand's range."
-	r.Rule("R10.1", "effective TTL selection", 1)
+	r.Rule("R10.1", "effective TTL selection (Trait.TTL), the context TTL being the cell of the innermost WithTTL as read by TTL(ctx)", 3)
 	r.Rule("R10.2", "jitter polynomial T + J·T·(r − 1/2) with one rand.Float64(); T exactly when jitter is disabled; defaults J=0.1 and TimeToLive=5m applied exactly when 0", 3)
 	r.Rule("R10.3", "expiry instant: E = now + ttl when ttl ≠ 0, else 0; stored by every Write; no write-back into the context", 4)
 	r.Rule("R10.4", "reads agree: expired ⇔ E≠0 ∧ E<now (all orderings of E, now, 0)", 3)
 	r.Rule("R10.5", "one instant, two views: accessors are tsTime(entry.E); tsTime∘ts = id; legacy walker copies E", 6)
 	r.NotDecided = []string{"float rounding / Duration truncation", "the real clock", "math/rand's range"}
 	c.withAlias(map[string]string{"R06.6": "R10.1"}, func() { c.traitTTLRule("R06.6") })
+	// "the context TTL" is what the innermost WithTTL installed (also when that is DefaultTTL = 0: it resets an outer TTL)
+	c.borrow("C06", func() { c.c06WithTTL(); c.c06Accessors() }, func(o *coreObl) (string, bool) {
+		return "R10.1", o.Rule == "R06.3" || o.Rule == "R06.7" && o.Construct == "TTL"
+	})
 	c.c10Jitter()
 	c.c10ExpireAt()
 	c.withAlias(map[string]string{"R07.2": "R10.4"}, func() {
